@@ -9,9 +9,10 @@ from six import text_type
 
 from . import errors
 from .base import FS
+from .info import Info
 from .memoryfs import MemoryFS
 from .mode import validate_open_mode, validate_openbin_mode
-from .path import abspath, forcedir, normpath
+from .path import abspath, basename, forcedir, normpath
 
 if typing.TYPE_CHECKING:
     from typing import (
@@ -149,7 +150,15 @@ class MountFS(FS):
         # type: (Text, Optional[Collection[Text]]) -> Info
         self.check()
         fs, _path = self._delegate(path)
-        return fs.getinfo(_path, namespaces=namespaces)
+        info = fs.getinfo(_path, namespaces=namespaces)
+        if fs is not self.default_fs and _path in ("", "/"):
+            # a mount point is named as in the directory that lists it
+            _name = basename(abspath(normpath(path)))
+            if _name:
+                raw = dict(info.raw)
+                raw["basic"] = dict(raw.get("basic", {}), name=_name)
+                info = Info(raw)
+        return info
 
     def listdir(self, path):
         # type: (Text) -> List[Text]
